@@ -19,6 +19,7 @@ RULE = (
     "from outside (exact sign), equations unit/outward/contain the face/other vertices strictly inside, neighbours symmetric and "
     "<=> shared edge, edges unique i<j lexicographically sorted with V-E+F=2 and num_edges/edge_vectors/edge_lengths consistent, "
     "simplices triangulate the faces consistently outward, get_dihedral equals the angle of the exact integer normals.  "
+    "Also: sort_faces from EVERY winding pattern (one bit per face) x 7 face-list orders on the octahedron, prisms n=5,6 and pyramids n=5,6 (thorough: up to n=8); merge_faces on prisms/pyramids n=5..8 with 5 triangle-list orders.  "
     "non-trivial = case with a scrambled input (order, permutation, relabelling, triangulation) or non-identity placement."
 )
 ASSUMPTIONS = ["'randomly permuting' of the quantifier text replaced by the complete product of a fixed finite set of scrambles"]
